@@ -280,7 +280,13 @@ def path_summary(prog, f):
                 elif op in ("Eq", "Ne") and y < x:
                     x, y = y, x
                 conds.append("%s(%s,%s)" % (op, x, y))
-        sites.append((sorted(set(conds)), canon(v)))
+        rv = canon(v)
+        rv = {"Not(0)": "1", "Not(1)": "0"}.get(rv, rv)
+        if rv == "0" and f.locals[0]["ty"] == "bool":
+            # a predicate is determined by where it is not `false`: the constant-false sites are the complement of the others, and how
+            # they are split over early returns / `&&` chains is a matter of form
+            continue
+        sites.append((sorted(set(conds)), rv))
     # merge sites with equal results whose condition sets differ in one discriminant only is left to the comparison (sets of pairs)
     out = sorted({"%s <= %s" % (ren(r), ren(" & ".join(cs))) for cs, r in sites})
     return out
